@@ -51,7 +51,7 @@ def families(tier):
     full = alphabet() + ["PUSHLABEL a", "PUSHLABEL b", "LABEL a", "LABEL b"]
     fam = [("full", full, 1), ("full", full, 2), ("full", full, 3), ("stack", STACKY, 4), ("jump", JUMPY, 4), ("jump", JUMPY, 5)]
     if tier != "quick":
-        fam += [("stack", STACKY, 5), ("full", full, 4)]
+        fam += [("stack", STACKY, 5)]  # (39**4 windows over the full alphabet would take about an hour on 16 cores: not enumerated)
     return fam
 
 
